@@ -512,6 +512,7 @@ pub fn run_cmd(args: &Args) {
     let seed = args.seed;
     // watchdog: a hang (e.g. a pool join that never returns) is an observation, not a harness hang
     { let out = args.out.clone(); std::thread::spawn(move || { let mut last = 0; let mut idle = 0; loop { std::thread::sleep(std::time::Duration::from_secs(2)); let b = BEAT.load(std::sync::atomic::Ordering::SeqCst); if b == last { idle += 1; if idle > 90 { let mut rep = Report::default(); rep.violation("multi:hang", "no CompressMulti call returned for 180 s (a join that never returns?)", "{}".into()); rep.write(&out); std::process::exit(0); } } else { idle = 0; last = b; } } }); }
+    let t0 = std::time::Instant::now();
     let mut corr = Corr::new(&args.out);
     let mut rep = Report::default();
     // ---- corpus first: the minimal reproductions (regressions)
@@ -526,6 +527,7 @@ pub fn run_cmd(args: &Args) {
         { let c = Case { q: 5, lgwin: 10, large: false, favor: true, catable: false, appendable: false, magic: false, t: 6, n: 5852, kind: 4, dseed: 0x17, size_hint: 0 }; search_case(&c, &mut rep, &mut pool, &mut rng); }
         for (a, b) in lines { corr.case(&a, &b); }
     }
+    eprintln!("multi: corpus {:?}", t0.elapsed());
     // ---- arithmetic lines (ranges incl. the overflow edge, bounds)
     {
         let mut rng = Rng::new(seed ^ 0xA1);
@@ -542,6 +544,7 @@ pub fn run_cmd(args: &Args) {
         }
         for n in [0usize, 1, 16383, 16384, 16385, (1 << 20) - 1, 1 << 20, (1 << 20) + 1, (1 << 24) - 1, 1 << 24, (1 << 24) + 1, usize::MAX - 30, usize::MAX] { corr.case(&format!("multi max {}", n), &format!("{}", BrotliEncoderMaxCompressedSize(n))); }
     }
+    eprintln!("multi: arith {:?}", t0.elapsed());
     // ---- correspondence cases (small inputs: every job's bytes go into the request line)
     let ncorr = if thorough { 1600 } else { 224 };
     let res = par_tasks(16, move |task| {
@@ -555,6 +558,7 @@ pub fn run_cmd(args: &Args) {
         (lines, rep)
     });
     for (lines, r) in res { for (a, b) in lines { corr.case(&a, &b); } rep.merge(r); }
+    eprintln!("multi: corr {:?}", t0.elapsed());
     // ---- search
     let nsearch = if thorough { 6400 } else { 400 };
     let res = par_tasks(16, move |task| {
@@ -569,6 +573,7 @@ pub fn run_cmd(args: &Args) {
         rep
     });
     for r in res { rep.merge(r); }
+    eprintln!("multi: search {:?}", t0.elapsed());
     corr.finish();
     rep.write(&args.out);
 }
